@@ -18,7 +18,7 @@ CHECK = {
     "level_note": "One default thread schedule per configuration; problem size fixed at 4^3 cells in 2x2x1 subgrids, "
                   "4 hydro steps, 2 photoionization iterations. Leak checking off.",
     "quick_deadline": 90,
-    "thorough_deadline": 1100,
+    "thorough_deadline": 1200,
     "parts": [
         {"name": "runs", "bin": "c12_runs",
          "needs": [_os.path.join(_B, "asan", "CMacIonize"), _os.path.join(_B, "ompasan", "CMacIonize"),
